@@ -2225,7 +2225,15 @@ func (p *Parser) evaluateUnaryOperation(ctx context) (Expression, error) {
 		}
 	}
 	valueToken := p.peek()
-	expr, err := p.evaluateSingleExpression(ctx)
+	var expr Expression
+	var err error
+
+	// The operand of a unary operator can be a unary operation itself (!!b).
+	if negate {
+		expr, err = p.evaluateUnaryOperation(ctx)
+	} else {
+		expr, err = p.evaluateSingleExpression(ctx)
+	}
 
 	if err != nil {
 		return nil, err
